@@ -15,6 +15,9 @@ class Unsupported(Exception):
     pass
 
 
+NO_VALUE = object()
+
+
 def adt(path, vi, fields=()):
     return ("adt", path, vi, list(fields))
 
@@ -29,6 +32,8 @@ class Interp:
         self.crate = crate
         self.inline = inline  # predicate(def, id) -> bool : interpret this local callee
         self.max_depth = max_depth
+        self.oracle = {}      # {adt path: variant index} assumed for discriminants of opaque values of that enum type
+        self.call_oracle = None   # f(callee fact, argv) -> value, or NO_VALUE to interpret normally
 
     def variant_index(self, path, name):
         if path in STD_VARIANTS:
@@ -107,18 +112,33 @@ class Interp:
     def call(self, body, f, argv, depth):
         d = f.get("def", "")
         name = f.get("name", "")
+        if self.call_oracle is not None:
+            r_ = self.call_oracle(f, argv)
+            if r_ is not NO_VALUE:
+                return r_
         if d in ("core::clone::Clone::clone", "core::ops::deref::Deref::deref", "core::convert::AsRef::as_ref", "core::borrow::Borrow::borrow",
                  "core::convert::Into::into", "core::convert::From::from", "core::convert::identity") and argv and not is_opaque(argv[0]):
             return argv[0]
         if d in ("core::cmp::PartialEq::eq", "core::cmp::PartialEq::ne") and len(argv) == 2 and not contains_opaque(argv[0]) and not contains_opaque(argv[1]):
             r = argv[0] == argv[1]
             return r if d.endswith("eq") else not r
+        rd = (f.get("resolved") or {}).get("def") or ""
+        if (d == "core::ops::try_trait::Try::branch" or "Try>::branch" in rd) and argv and is_adt(argv[0]) and argv[0][1] in ("core::option::Option", "core::result::Result"):
+            v0 = argv[0]
+            CF = "core::ops::control_flow::ControlFlow"
+            if v0[2] == (1 if v0[1].endswith("Option") else 0):      # Some / Ok
+                return adt(CF, 0, [v0[3][0]])
+            return adt(CF, 1, [v0])
+        if (d == "core::ops::try_trait::FromResidual::from_residual" or "FromResidual" in rd) and argv and is_adt(argv[0]) and argv[0][1] in ("core::option::Option", "core::result::Result"):
+            return argv[0]
         if d == "core::intrinsics::discriminant_value" and argv and is_adt(argv[0]):
             return argv[0][2]
         if d == "core::option::Option::<T>::is_some" and is_adt(argv[0]):
             return argv[0][2] == 1
         if d == "core::option::Option::<T>::is_none" and is_adt(argv[0]):
             return argv[0][2] == 0
+        if name in FLOAT_PREDICATES and ("<impl f64>" in d or "<impl f32>" in d) and argv and isinstance(argv[0], float):
+            return FLOAT_PREDICATES[name](argv[0])
         if name in ASCII_PREDICATES and ("<impl u8>" in d or "<impl char>" in d) and argv and isinstance(argv[0], int) and not isinstance(argv[0], bool):
             v = argv[0]
             return 0 <= v < 128 and ASCII_PREDICATES[name](chr(v))
@@ -187,6 +207,11 @@ class Interp:
             for k in ("int", "bool", "str"):
                 if k in c:
                     return c[k]
+            if "float" in c:
+                try:
+                    return float(c["float"].replace("NaN", "nan")) if isinstance(c["float"], str) else float(c["float"])
+                except (TypeError, ValueError):
+                    return ("sym", "float-const")
             if "char" in c:
                 return ord(c["char"]) if isinstance(c["char"], str) and len(c["char"]) == 1 else c["char"]
             if "fn" in c:
@@ -230,6 +255,12 @@ class Interp:
             v = self.place(body, env, r["discr"])
             if is_adt(v):
                 return v[2]
+            if self.oracle and is_opaque(v) and hasattr(body, "local_ty"):
+                from . import dt as _dt
+                from .facts import ty_adt as _ty_adt
+                a = _ty_adt(_dt.place_ty(body, self.F, r["discr"]) or {})
+                if a in self.oracle:
+                    return self.oracle[a]
             raise Unsupported(f"discriminant of {v!r}")
         if "agg" in r:
             ops = [self.operand(body, env, o) for o in r["ops"]]
@@ -245,6 +276,11 @@ class Interp:
         if "bin" in r:
             a = self.operand(body, env, r["a"])
             b = self.operand(body, env, r["b"])
+            if isinstance(a, float) and isinstance(b, float):
+                op = r["bin"]
+                table = {"Eq": a == b, "Ne": a != b, "Lt": a < b, "Le": a <= b, "Gt": a > b, "Ge": a >= b}
+                if op in table:
+                    return table[op]
             if isinstance(a, (int, bool)) and isinstance(b, (int, bool)):
                 op = r["bin"]
                 table = {"Eq": a == b, "Ne": a != b, "Lt": a < b, "Le": a <= b, "Gt": a > b, "Ge": a >= b}
@@ -256,6 +292,13 @@ class Interp:
                     return a | b
                 if op in ("Add", "Sub"):
                     return a + b if op == "Add" else a - b
+                if op == "Mul":
+                    return a * b
+                if op == "BitXor":
+                    return a ^ b
+                if op in ("AddWithOverflow", "SubWithOverflow", "MulWithOverflow", "AddUnchecked", "SubUnchecked", "MulUnchecked"):
+                    v_ = a + b if op.startswith("Add") else a - b if op.startswith("Sub") else a * b
+                    return ("tuple", [v_, False]) if op.endswith("WithOverflow") else v_
             raise Unsupported("binop on symbolic values")
         if "un" in r:
             a = self.operand(body, env, r["a"])
@@ -264,6 +307,16 @@ class Interp:
             raise Unsupported("unop")
         raise Unsupported("rvalue " + ",".join(r))
 
+
+import math as _math
+
+FLOAT_PREDICATES = {
+    "is_nan": _math.isnan,
+    "is_finite": _math.isfinite,
+    "is_infinite": _math.isinf,
+    "is_sign_negative": lambda v: _math.copysign(1.0, v) < 0,
+    "is_sign_positive": lambda v: _math.copysign(1.0, v) > 0,
+}
 
 ASCII_PREDICATES = {
     "is_ascii": lambda c: True,
